@@ -508,6 +508,32 @@ def cpeprogLine (rest : String) : String :=
     | none => "bad-model-line"
   | _ => "bad-model-line"
 
+/-! ### lirloop: loop-variable update emitted by LIR lowering -/
+open TailRec in
+def lirloopLine (rest : String) : String :=
+  match rest.splitOn "##" with
+  | [_, m] =>
+    -- model line: n  name*n  loopvalue*n   (names are loop variables `p<i>`/`x<k>`)
+    match (do
+        let n ← num
+        let names ← rep n tok
+        let vals ← rep n tok
+        pure (names, vals) : P (List String × List String)).run (words m) with
+    | some ((names, vals), _) =>
+      let nm := names.filterMap nameOf
+      let ex : List Expr := vals.map fun t => match t.toInt? with
+        | some k => .lit k
+        | none => match nameOf t with | some x => .var x | none => .lit 0
+      let temps := (List.range nm.length).map (· + 500000)
+      let (casts, lv) := lowerLoopUpdate nm ex temps
+      let showN := fun (x : Nat) =>
+        if x ≥ 500000 then s!"_t{x - 500000}" else if x ≥ 1000 then s!"x{x - 1000}" else s!"p{x}"
+      let showE := fun (e : Expr) => match e with | .lit k => toString k | .var x => showN x
+      "vars " ++ " ".intercalate ((nm.zip lv).map fun (a, b) => showN a ++ "<-" ++ showE b) ++
+        " | casts " ++ " ".intercalate (casts.map fun (a, b) => showN a ++ "<-" ++ showE b)
+    | none => "bad-model-line"
+  | _ => "bad-model-line"
+
 def step (_ : Unit) (line : String) : Unit × String :=
   let line := line.trimAscii.toString
   let (k, rest) := match line.splitOn " " with
@@ -519,6 +545,7 @@ def step (_ : Unit) (line : String) : Unit × String :=
        else if k == "cpesem" then cpesemLine rest
        else if k == "tailstmt" then tailstmtLine rest
        else if k == "cpeprog" then cpeprogLine rest
+       else if k == "lirloop" then lirloopLine rest
        else "bad-line")
 
 end Driver.C01
